@@ -1,11 +1,14 @@
-(* C15 - challenge-response credentials.  Since 2ac69bb https.HttpAuthenticated starts every
-   request from a fresh urllib password manager holding only the credentials configured now, so
-   what the server recovers after a Basic challenge is what is configured at the time of the
-   request, whatever happened before - and nothing when a credential is None.
-   The manager suds used before (one for the life of the transport, an entry per URL, urllib
-   answering with the first path prefix) is kept as pm_after_accumulating with its lemmas: the
-   guarded statement and the /svc -> /svc/op witness are the regression witnesses of the fixed
-   finding C15:stale-credentials-for-deeper-path. *)
+(* C15 - challenge-response credentials.  Since 7b69e23 https.HttpAuthenticated owns one
+   password manager whose state is the set of URLs registered while credentials were set and
+   whose answer, for a URL below a registered one, is the pair configured on the transport at
+   the time of the lookup (nothing if a credential is None).  Every send registers its URL first
+   (when credentials are set), so what the server recovers after a Basic challenge is what is
+   configured at the time of the request, whatever happened before - for the same URL, a deeper
+   one or another one - and nothing when a credential is None.
+   The lookup suds relied on before (urllib's own: the pair STORED with the first path-prefix
+   entry) is kept - pm_find over pm_after_accumulating - with the guarded statement and the
+   /svc -> /svc/op witness as regression witnesses of the fixed finding
+   C15:stale-credentials-for-deeper-path. *)
 From SV Require Import Lib.Base C15.Base64 C15.Model C15.PipeProofs.
 Local Open Scope N_scope.
 
@@ -60,8 +63,40 @@ Lemma same_url_history_l path changes u p :
   pm_find path (pm_add path u p (pm_history path changes)) = Some (u, p).
 Proof. apply pm_find_add_l, pm_single_clear, pm_history_single. Qed.
 
-(* at the level of a send: the retried request carries the pair configured now, for ANY state
-   an earlier send may have left *)
+(* a URL just registered is found (some entry answers for it) *)
+Lemma pm_find_add_some path u p pm : exists up, pm_find path (pm_add path u p pm) = Some up.
+Proof.
+  induction pm as [|[base up0] r IH]; cbn [pm_add].
+  - exists (u, p). cbn [pm_find]. rewrite is_suburi_refl. reflexivity.
+  - destruct (str_eqb path base) eqn:E.
+    + apply str_eqb_eq in E. subst base. exists (u, p). cbn [pm_find]. rewrite is_suburi_refl. reflexivity.
+    + cbn [pm_find]. destruct (is_suburi base path); [exists up0; reflexivity | exact IH].
+Qed.
+
+(* the lookup of a send: the pair configured now when both are set, nothing otherwise -
+   whatever URLs earlier sends registered *)
+Lemma pm_lookup_send u pw pm q :
+  pm_lookup (pm_after TChallenge (Some u, Some pw) pm q) (q_path q) (Some u, Some pw) = Some (u, pw).
+Proof.
+  unfold pm_lookup. cbn [pm_after]. destruct (pm_find_add_some (q_path q) u pw pm) as [up H].
+  rewrite H. reflexivity.
+Qed.
+
+Lemma pm_lookup_none pm path c : fst c = None \/ snd c = None -> pm_lookup pm path c = None.
+Proof.
+  intro N. unfold pm_lookup. destruct (pm_find path pm); [|reflexivity].
+  destruct c as [[u|] [p|]]; try reflexivity. cbn in N. destruct N; discriminate.
+Qed.
+
+(* the lookup finds nothing for a URL that is below no registered one - e.g. when addcredentials
+   ran while a credential was None and the credentials were set only afterwards.  A send cannot
+   get there: it registers its own URL a moment before with the same credentials (pm_lookup_send);
+   it takes another thread changing the options between the two *)
+Lemma pm_lookup_unregistered path c : pm_lookup [] path c = None.
+Proof. reflexivity. Qed.
+
+(* at the level of a send: the retried request carries the pair configured now, for ANY set of
+   URLs registered before (the same URL, a shorter one, others, none) *)
 Lemma challenge_credentials_l P u pw j prev pm q p cb :
   p_challenge p = Some cb ->
   has_key l_authorization (u2_headers (start_headers P prev q)) = false ->
@@ -69,12 +104,12 @@ Lemma challenge_credentials_l P u pw j prev pm q p cb :
   m_conns m = 2 /\ dict_get l_authorization (m_hdrs m) = Some (authorization std_alphabet u pw).
 Proof.
   intros C A m. subst m. unfold model_step. rewrite C. cbn [add_credentials]. rewrite A.
-  cbn [pm_after pm_find]. rewrite is_suburi_refl. cbn [fst m_conns m_hdrs].
+  rewrite pm_lookup_send. cbn [fst m_conns m_hdrs].
   split; [reflexivity|]. rewrite get_set, str_eqb_refl. reflexivity.
 Qed.
 
 (* credentials reset to None (one or both): the challenge is not answered - one connection,
-   no Authorization added, the 401 surfaces *)
+   no Authorization added, the 401 surfaces - although the URL may still be registered *)
 Lemma no_credentials_no_answer_l P k c j prev pm q p cb :
   fst c = None \/ snd c = None ->
   p_challenge p = Some cb ->
@@ -87,17 +122,22 @@ Proof.
   assert (E : add_credentials P k c (start_headers P prev q) = start_headers P prev q)
     by (apply no_credentials_no_header_l; tauto).
   rewrite E, A.
-  assert (F : pm_after k c pm q = []).
-  { destruct k, c as [[u|] [pw|]]; try reflexivity. cbn in N. destruct N; discriminate. }
-  destruct k; try (rewrite F; cbn [pm_find]); cbn [fst m_conns m_result m_hdrs]; repeat split; reflexivity.
+  destruct k; try (rewrite (pm_lookup_none _ _ c N)); cbn [fst m_conns m_result m_hdrs];
+    repeat split; reflexivity.
 Qed.
 
-(* no send looks at what earlier sends left in the manager *)
+(* no send depends on what earlier sends registered *)
 Lemma history_independent_l P k c j prev pm q p :
   model_step P k c j prev pm q p = model_step P k c j prev [] q p.
-Proof. unfold model_step. destruct k, c as [[u|] [pw|]]; reflexivity. Qed.
+Proof.
+  unfold model_step. destruct k; try reflexivity.
+  destruct c as [[u|] [pw|]];
+    try (rewrite !(pm_lookup_none _ _ _ (or_introl eq_refl)); reflexivity);
+    try (rewrite !(pm_lookup_none _ _ _ (or_intror eq_refl)); reflexivity).
+  rewrite !pm_lookup_send. reflexivity.
+Qed.
 
-(* ---------- the manager before 2ac69bb (regression witnesses) ---------- *)
+(* ---------- the lookup before 2ac69bb (regression witnesses) ---------- *)
 (* with the accumulating manager the configured pair was found only when no entry for another,
    shorter path stood in front *)
 Lemma accumulating_manager_partial_l u pw pm q :
